@@ -129,6 +129,7 @@ func main() {
 	genProcessEnv()
 	genUtilFormat()
 	genUrlTables()
+	genRequireGlue()
 }
 
 // exprString / stmtsString: canonical whitespace-free rendering of AST fragments used for shape matching.
